@@ -1,62 +1,110 @@
-(* C25 -- the JSON-reading sites of the migrations: on the expected shapes they cannot raise. *)
+(* C25 -- the JSON-reading sites of the migrations: the raw operations cannot raise on the expected shapes, and
+   the guarded sites (source since fix 5a4118c) cannot raise at all. *)
 From Coq Require Import ZArith Bool String List Lia.
 Import ListNotations.
 Require Import Grist.Model.Migrate Grist.Model.MigrateSites.
 Open Scope Z_scope.
 
-Lemma m15_ok_on_objects : forall key j, ws_obj j = true -> m15_site key j = Ok tt.
-Proof. intros key j H. destruct j; try discriminate. unfold m15_site. destruct (negb _); reflexivity. Qed.
+Lemma m15_ok_on_objects : forall key j, ws_obj j = true -> m15_raw key j = Ok tt.
+Proof. intros key j H. destruct j; try discriminate. unfold m15_raw. destruct (negb _); reflexivity. Qed.
 
-Lemma m16_ok_on_shape : forall j, ws_m16 j = true -> m16_site j = Ok tt.
+Lemma m16_ok_on_shape : forall j, ws_m16 j = true -> m16_raw j = Ok tt.
 Proof.
   intros j H. destruct j as [| | | | |m]; try discriminate. cbn in *.
   destruct (lookup _ m) as [v|]; [|reflexivity].
   destruct (negb (truthy v)); [reflexivity|]. destruct v; try discriminate; reflexivity.
 Qed.
 
-Lemma m29_ok_on_objects : forall j, ws_obj j = true -> m29_site j = Ok tt.
+Lemma m29_ok_on_objects : forall j, ws_obj j = true -> m29_raw j = Ok tt.
 Proof. intros j H. destruct j; try discriminate. reflexivity. Qed.
 
-Lemma m34_ok_on_objects : forall j, ws_obj j = true -> m34_site j = Ok tt.
+Lemma m34_ok_on_objects : forall j, ws_obj j = true -> m34_raw j = Ok tt.
 Proof. intros j H. destruct j; try discriminate. reflexivity. Qed.
 
-Lemma m35_ok_on_shape : forall j, ws_m35 j = true -> m35_site j = Ok tt.
+Lemma m35_ok_on_shape : forall j, ws_m35 j = true -> m35_raw j = Ok tt.
 Proof.
-  intros j H. unfold ws_m35 in H. unfold m35_site.
+  intros j H. unfold ws_m35 in H. unfold m35_raw.
   destruct (negb (truthy j)) eqn:T; [reflexivity|]. cbn [orb] in H.
   destruct j as [| | | |l|]; try discriminate. destruct l as [|x rest]; [reflexivity|].
   destruct (is_str (zs "Comment") x); cbn [negb orb] in H; [rewrite H|]; reflexivity.
 Qed.
 
-Lemma ms_ok_on_shape : forall v, ws_time v = true -> ms_site v = Ok tt.
+Lemma ms_ok_on_shape : forall v, ws_time v = true -> ms_raw v = Ok tt.
 Proof.
   intros v H. destruct v as [j|]; [|reflexivity]. destruct j as [| |n| | |]; try discriminate; try reflexivity.
-  destruct n as [z|bits]; cbn [ws_time ms_site] in *.
-  - rewrite H. reflexivity.
+  destruct n as [z|bits]; cbn [ws_time ms_raw] in *.
+  - apply Z.ltb_lt in H. assert (L : BIG < OVER) by (vm_compute; reflexivity).
+    replace (Z.abs z <? OVER) with true by (symmetry; apply Z.ltb_lt; eapply Z.lt_trans; eassumption).
+    reflexivity.
   - unfold flt_is_nan, flt_is_inf. apply negb_true_iff in H. rewrite H. reflexivity.
 Qed.
 
-Lemma m45_ok_on_shape : forall j, ws_m45 j = true -> m45_site j = Ok tt.
+Lemma m45_ok_on_shape : forall j, ws_m45 j = true -> m45_raw j = Ok tt.
 Proof.
-  intros j H. destruct j as [| | | | |m]; try reflexivity. cbn [ws_m45 m45_site] in *.
+  intros j H. destruct j as [| | | | |m]; try reflexivity. cbn [ws_m45 m45_raw] in *.
   apply andb_prop in H. destruct H as [H1 H2].
   rewrite (ms_ok_on_shape _ H1). cbn [bind]. apply ms_ok_on_shape. exact H2.
 Qed.
 
 (* off the expected shape each site does raise: valid JSON of another shape *)
-Lemma sites_raise :
-  m15_site (zs "3") (JNum (JInt 5)) = Err TypeErr /\
-  m15_site (zs "3") (JStr (zs "3")) = Err TypeErr /\
-  m16_site (JArr [JNum (JInt 1); JNum (JInt 2)]) = Err TypeErr /\
-  m16_site (JStr (zs "s")) = Err AttrErr /\
-  m16_site (JObj [(zs "visibleCol", JArr [JStr (zs "x")])]) = Err TypeErr /\
-  m29_site (JArr [JNum (JInt 1); JNum (JInt 2)]) = Err AttrErr /\
-  m34_site JNull = Err AttrErr /\
-  m34_site (JArr [JNum (JInt 1); JNum (JInt 2)]) = Err AttrErr /\
-  m35_site (JNum (JInt 5)) = Err TypeErr /\
-  m35_site (JObj [(zs "a", JNum (JInt 1))]) = Err KeyErr /\
-  m35_site (JArr [JStr (zs "Comment")]) = Err IndexErr /\
-  m45_site (JObj [(zs "timeCreated", JStr (zs "x"))]) = Err TypeErr /\
-  m45_site (JObj [(zs "timeUpdated", JNum (JFlt 9218868437227405312))]) = Err OverflowErr /\
-  m45_site (JObj [(zs "timeCreated", JNum (JFlt 9221120237041090560))]) = Err ValueErr.
+Lemma raw_ops_raise :
+  m15_raw (zs "3") (JNum (JInt 5)) = Err TypeErr /\
+  m15_raw (zs "3") (JStr (zs "3")) = Err TypeErr /\
+  m16_raw (JArr [JNum (JInt 1); JNum (JInt 2)]) = Err TypeErr /\
+  m16_raw (JStr (zs "s")) = Err AttrErr /\
+  m16_raw (JObj [(zs "visibleCol", JArr [JStr (zs "x")])]) = Err TypeErr /\
+  m29_raw (JArr [JNum (JInt 1); JNum (JInt 2)]) = Err AttrErr /\
+  m34_raw JNull = Err AttrErr /\
+  m34_raw (JArr [JNum (JInt 1); JNum (JInt 2)]) = Err AttrErr /\
+  m35_raw (JNum (JInt 5)) = Err TypeErr /\
+  m35_raw (JObj [(zs "a", JNum (JInt 1))]) = Err KeyErr /\
+  m35_raw (JArr [JStr (zs "Comment")]) = Err IndexErr /\
+  m45_raw (JObj [(zs "timeCreated", JStr (zs "x"))]) = Err TypeErr /\
+  m45_raw (JObj [(zs "timeUpdated", JNum (JFlt 9218868437227405312))]) = Err OverflowErr /\
+  m45_raw (JObj [(zs "timeCreated", JNum (JFlt 9221120237041090560))]) = Err ValueErr.
 Proof. repeat split; vm_compute; reflexivity. Qed.
+
+(* ---------- the guarded sites are total ---------- *)
+Lemma m15_total : forall key j, m15_site key j = Ok tt.
+Proof. intros key j. unfold m15_site. apply m15_ok_on_objects. destruct j; reflexivity. Qed.
+
+Lemma m16_total : forall j, m16_site j = Ok tt.
+Proof.
+  intros j. destruct j as [| | | | |m]; try reflexivity. cbn [m16_site].
+  destruct (lookup (zs "visibleCol") m) as [v|] eqn:E; [|reflexivity].
+  destruct v as [| | |s| |]; try reflexivity.
+  destruct (truthy (JStr s)) eqn:T; [|reflexivity].
+  cbn [m16_raw]. rewrite E, T. reflexivity.
+Qed.
+
+Lemma m29_total : forall j, m29_site j = Ok tt.
+Proof. intros j. destruct j; reflexivity. Qed.
+
+Lemma m34_total : forall j, m34_site j = Ok tt.
+Proof. intros j. unfold m34_site. apply m34_ok_on_objects. destruct j; reflexivity. Qed.
+
+Lemma m35_total : forall j, m35_site j = Ok tt.
+Proof.
+  intros j. destruct j as [| | | |l|]; try reflexivity. destruct l as [|x rest]; [reflexivity|].
+  cbn [m35_site]. destruct ((2 <=? length rest)%nat && is_str (zs "Comment") x) eqn:G; [|reflexivity].
+  apply andb_prop in G. destruct G as [G1 G2].
+  apply m35_ok_on_shape. unfold ws_m35. cbn [truthy negb orb]. rewrite G1. apply orb_true_r.
+Qed.
+
+Lemma ms_total : forall v, ms_site v = Ok tt.
+Proof.
+  intros v. unfold ms_site. destruct v as [j|]; [|reflexivity].
+  destruct j as [| |n| | |]; try reflexivity. destruct n as [z|bits]; cbn [ms_raw].
+  - destruct (Z.abs z <? OVER); reflexivity.
+  - destruct (flt_is_nan bits); [reflexivity|]. destruct (flt_is_inf bits); reflexivity.
+Qed.
+
+Lemma m45_total : forall j, m45_site j = Ok tt.
+Proof. intros j. destruct j; try reflexivity. cbn [m45_site]. rewrite ms_total. cbn [bind]. apply ms_total. Qed.
+
+Lemma sites_total : forall n key j, site_fn n key j = Ok tt.
+Proof.
+  intros n key j. unfold site_fn.
+  repeat match goal with |- context [if ?b then _ else _] => destruct b end;
+    auto using m15_total, m16_total, m29_total, m34_total, m35_total, m45_total.
+Qed.
